@@ -445,21 +445,18 @@ where
         new_entries: Vec<Entry>,
     ) -> Result<Option<LogId>> {
         let _timer = ScopedTimer::new("filter_out_conflicts_and_append");
-        // prev_log_index == 0 means the leader wants the follower to start from scratch
-        // (e.g. new follower joining, or follower log fully diverged). Reset and replace.
-        if prev_log_index == 0 && prev_log_term == 0 {
-            self.reset().await?;
-            self.append_entries(new_entries.clone()).await?;
-            return Ok(new_entries.last().map(|e| LogId {
-                term: e.term,
-                index: e.index,
-            }));
-        }
+        // prev_log_index == 0 is the virtual position before the first entry: it matches every log
+        // (Raft §5.3). The request is then handled like any other: entries the follower already
+        // holds with the same term are kept, the first conflicting index truncates the suffix, and
+        // nothing beyond the request is discarded unless it conflicts. (Resetting the whole log here
+        // threw away acknowledged - possibly committed - entries whenever a leader whose next_index
+        // had fallen back to 1 re-sent a capped batch from the start.)
+        let prev_is_virtual = prev_log_index == 0 && prev_log_term == 0;
 
         // Check log consistency: use entry_term() so purge-boundary entries
         // (entries removed from the SkipMap but recorded in last_purged_index/term)
         // are still recognised as valid prev_log positions after snapshot install.
-        if self.entry_term(prev_log_index) != Some(prev_log_term) {
+        if !prev_is_virtual && self.entry_term(prev_log_index) != Some(prev_log_term) {
             return Ok(self.last_log_id());
         }
 
